@@ -76,6 +76,15 @@ class ProgWP(LinWP):
             r = MV([row[c0:c0 + nc] for row in M.m[r0:r0 + nr]], M.deps)
             r.cols = nc
             return r
+        if name == 'col' and len(args) == 1:
+            o = self.ev(obj)
+            if isinstance(o, MV):
+                k = lit_int(self.ev(args[0]).t)
+                inside = k is not None and 0 <= k < o.cols
+                self.oblige('matrix column index within bounds', 'true' if inside else 'false', n)
+                if not inside:
+                    raise Unsupported(f'{self.name}: col({k}) of a {o.rows} x {o.cols} matrix')
+                return AV([r[k] for r in o.m], str(o.rows), o.deps)
         if name == 'size' and not args and unwrap(obj).get('kind') != 'CXXThisExpr':
             o = self.ev(obj)
             if isinstance(o, MV):
@@ -103,6 +112,24 @@ class ProgWP(LinWP):
             blk = self.block_of(args[0])
             if blk is not None:
                 return self.write_block(n, blk, args[1])
+            lhs = unwrap(args[0])
+            if lhs.get('kind') in ('DeclRefExpr', 'MemberExpr') and 'tensor_vector_storage_t' in type_str(lhs):
+                # assignment to an OWNING tensor (matrix_t / vector_t) itself, not through a view: the tensor takes the shape of the value
+                key = self.lkey(lhs)
+                old = self.env.get(key)
+                if isinstance(old, (AV, MV)):
+                    rhs = self.ev(args[1])
+                    if isinstance(old, MV) and isinstance(rhs, MV):
+                        new = MV(rhs.m)
+                        new.cols = rhs.cols
+                    elif isinstance(old, AV) and not isinstance(old, RV) and isinstance(rhs, AV) and not isinstance(rhs, RV):
+                        new = AV(rhs.c, str(len(rhs.c)))
+                    else:
+                        raise Unsupported(f'{self.name}: {type(rhs).__name__} assigned to the {type(old).__name__} {key}')
+                    self.env[key] = new
+                    self.ver[key] = self.ver.get(key, 0) + 1
+                    self.written = getattr(self, 'written', set()) | {key}
+                    return new
         if op in ('operator/=', 'operator*=') and len(args) == 2:
             key = self.lkey(args[0])
             if key is not None and isinstance(self.env.get(key), MV):
@@ -181,6 +208,21 @@ class ProgWP(LinWP):
     def whole_array_view(self, node):
         u = unwrap(node)
         return u.get('kind') == 'CXXMemberCallExpr' and u['inner'][0].get('name') == 'array' and len(u['inner']) == 1
+
+    def decl_hook(self, wp, v, init):
+        """`auto Ab = stack(..)` / `vector_t x = ..`: a local that OWNS its coefficients is a stored tensor of its own (a copy of the value)"""
+        if init and 'tensor_vector_storage_t' in type_str(v) and not type_str(v).rstrip().endswith('&'):
+            val = self.ev(init[0])
+            if isinstance(val, MV):
+                self.env[v['name']] = MV(val.m)
+                self.env[v['name']].cols = val.cols
+            elif isinstance(val, AV):
+                self.env[v['name']] = AV(val.c, val.n)
+            else:
+                return super().decl_hook(wp, v, init)
+            self.ver[v['name']] = 0
+            return True
+        return super().decl_hook(wp, v, init)
 
     # ------------------------------------------------------------------------------------------- statements
     def ex(self, n):
